@@ -443,7 +443,12 @@ fn c32_case(c: &FaultCase) -> CaseResult {
     let r = match step {
         Step::Q(q) => {
             let resolved = model.resolve(q);
-            catch(|| db.run(&resolved)).map(|r| r.is_ok())?
+            catch(|| db.run(&resolved)).map(|r| r.is_ok()).map_err(|mut f| {
+                // the rollback ran into half-updated structures: same root cause as the other classes
+                f.detail = format!("{}\n{}\nstep {target} {step:?}, failing storage call {call} of [{a},{b})", f.sig, f.detail);
+                f.sig = "failed write: the failed query panics (storage transaction left open)".to_string();
+                f
+            })?
         }
         Step::Tx { queries, fail_after } => {
             let mut m = model.clone();
@@ -460,6 +465,11 @@ fn c32_case(c: &FaultCase) -> CaseResult {
                     }
                     Ok(())
                 })
+            })
+            .map_err(|mut f| {
+                f.detail = format!("{}\n{}\nstep {target} {step:?}, failing storage call {call} of [{a},{b})", f.sig, f.detail);
+                f.sig = "failed write: the failed query panics (storage transaction left open)".to_string();
+                f
             })?
             .is_ok()
         }
